@@ -142,7 +142,7 @@ void World::CheckFailures(const InvRecord& r) {
         bool same = (b == r.log_before.last.end() && a == r.log_after.last.end()) ||
                     (b != r.log_before.last.end() && a != r.log_after.last.end() && b->second.hash == a->second.hash &&
                      b->second.mtime == a->second.mtime && b->second.start == a->second.start && b->second.end == a->second.end);
-        if (!same && a != r.log_after.last.end() && a->second.hash == NinjaCommandHash(HashCmdFor(sc, sc.stmts[f->stmt])))
+        if (!same && !r.log_torn_tail_before && a != r.log_after.last.end() && a->second.hash == NinjaCommandHash(HashCmdFor(sc, sc.stmts[f->stmt])))
           Report("C05", "failure_logged", "build log gained a record for '" + o + "' although its command failed");
         auto db = r.deps_before.last.find(o), da = r.deps_after.last.find(o);
         bool dsame = (db == r.deps_before.last.end() && da == r.deps_after.last.end()) ||
@@ -307,7 +307,9 @@ void World::CheckInterrupt(const InvRecord& r) {
       bool same = (b == r.log_before.last.end() && a == r.log_after.last.end()) ||
                   (b != r.log_before.last.end() && a != r.log_after.last.end() && b->second.hash == a->second.hash && b->second.mtime == a->second.mtime && b->second.end == a->second.end);
       // (a record merged with a crash-torn tail is garbage, not a claim of success: C08)
-      if (!same && a != r.log_after.last.end() && a->second.hash == NinjaCommandHash(HashCmdFor(sc, sc.stmts[x.stmt])))
+      // (nor is one whose torn last hex digit happens to be completed by the first
+      // digit of the line appended behind it; with a torn tail nothing is concluded)
+      if (!same && !r.log_torn_tail_before && a != r.log_after.last.end() && a->second.hash == NinjaCommandHash(HashCmdFor(sc, sc.stmts[x.stmt])))
         Report("C07", "interrupt_cleanup", "the build log gained a record for '" + o + "' of an interrupted command");
     }
   }
